@@ -3,6 +3,7 @@ package rescache
 import (
 	"encoding/json"
 	"errors"
+	"sync"
 
 	"github.com/resgateio/resgate/server/codec"
 	"github.com/resgateio/resgate/server/reserr"
@@ -22,38 +23,38 @@ const (
 // https://github.com/resgateio/resgate/blob/master/docs/res-protocol.md#models
 type Model struct {
 	Values map[string]codec.Value
+	once   sync.Once
 	data   []byte
+	err    error
 }
 
-// MarshalJSON creates a JSON encoded representation of the model
+// MarshalJSON creates a JSON encoded representation of the model.
+// A model is shared by the connections subscribing to it, and may be
+// marshaled by several of them at the same time.
 func (m *Model) MarshalJSON() ([]byte, error) {
-	if m.data == nil {
-		data, err := json.Marshal(m.Values)
-		if err != nil {
-			return nil, err
-		}
-		m.data = data
-	}
-	return m.data, nil
+	m.once.Do(func() {
+		m.data, m.err = json.Marshal(m.Values)
+	})
+	return m.data, m.err
 }
 
 // Collection represents a RES collection
 // https://github.com/resgateio/resgate/blob/master/docs/res-protocol.md#collections
 type Collection struct {
 	Values []codec.Value
+	once   sync.Once
 	data   []byte
+	err    error
 }
 
-// MarshalJSON creates a JSON encoded representation of the collection
+// MarshalJSON creates a JSON encoded representation of the collection.
+// A collection is shared by the connections subscribing to it, and may be
+// marshaled by several of them at the same time.
 func (c *Collection) MarshalJSON() ([]byte, error) {
-	if c.data == nil {
-		data, err := json.Marshal(c.Values)
-		if err != nil {
-			return nil, err
-		}
-		c.data = data
-	}
-	return c.data, nil
+	c.once.Do(func() {
+		c.data, c.err = json.Marshal(c.Values)
+	})
+	return c.data, c.err
 }
 
 // ResourceSubscription represents a client subscription for a resource or query resource
